@@ -24,14 +24,15 @@ import (
 )
 
 type emuCurveDesc struct {
-	c      *wcurve
-	glv    bool
-	lambda *big.Int // eigenvalue on GLV curves
-	capBit int      // bits representable by a scalar witness element
-	build  func(c *emuCase, withSink bool) (frontend.Circuit, frontend.Circuit, *sink, bool)
-	weight int    // relative cost (for sampling in quick)
-	pkg    string // gnark package of the gadget (violation signatures)
-	fam    string // counter prefix
+	c       *wcurve
+	glv     bool
+	lambda  *big.Int // eigenvalue on GLV curves
+	capBit  int      // bits representable by a scalar witness element: the bit length of the scalar modulus (emulated.Field constrains the top limb of a witness element to that width; wider values are not elements of the type)
+	nbLimbs int      // limbs of a scalar element
+	build   func(c *emuCase, withSink bool) (frontend.Circuit, frontend.Circuit, *sink, bool)
+	weight  int    // relative cost (for sampling in quick)
+	pkg     string // gnark package of the gadget (violation signatures)
+	fam     string // counter prefix
 }
 
 func mkEmuDesc[B, S emulated.FieldParams](name string) *emuCurveDesc {
@@ -44,13 +45,14 @@ func mkEmuDesc[B, S emulated.FieldParams](name string) *emuCurveDesc {
 	a := new(big.Int).Mod(pr.A, fp.Modulus())
 	b := new(big.Int).Mod(pr.B, fp.Modulus())
 	d := &emuCurveDesc{
-		c:      &wcurve{Name: name, P: fp.Modulus(), R: fr.Modulus(), A: a, B: b, Gx: pr.Gx, Gy: pr.Gy},
-		glv:    pr.Eigenvalue != nil && pr.ThirdRootOne != nil,
-		lambda: pr.Eigenvalue,
-		capBit: int(fr.NbLimbs()) * int(fr.BitsPerLimb()),
-		build:  buildEmu[B, S],
-		pkg:    "sw_emulated",
-		fam:    "emu",
+		c:       &wcurve{Name: name, P: fp.Modulus(), R: fr.Modulus(), A: a, B: b, Gx: pr.Gx, Gy: pr.Gy},
+		glv:     pr.Eigenvalue != nil && pr.ThirdRootOne != nil,
+		lambda:  pr.Eigenvalue,
+		capBit:  fr.Modulus().BitLen(),
+		nbLimbs: int(fr.NbLimbs()),
+		build:   buildEmu[B, S],
+		pkg:     "sw_emulated",
+		fam:     "emu",
 	}
 	return d
 }
@@ -180,8 +182,18 @@ func (d *emuCurveDesc) edgeScalars(rng *rand.Rand) []namedInt {
 	for i := 0; i < 3; i++ {
 		push("random", randNonzero(rng, r))
 	}
-	push("random+r", new(big.Int).Add(randNonzero(rng, new(big.Int).Sub(new(big.Int).Lsh(bi(1), uint(d.capBit)), r)), r))
+	push("random+r", d.oversized(rng))
 	return out
+}
+
+// oversized returns an unreduced scalar: a value in [r, 2^bits(r)), the range of
+// non-canonical values a witness element can hold.
+func (d *emuCurveDesc) oversized(rng *rand.Rand) *big.Int {
+	room := new(big.Int).Sub(new(big.Int).Lsh(bi(1), uint(d.capBit)), d.c.R)
+	if room.Cmp(bi(2)) < 0 {
+		return new(big.Int).Set(d.c.R)
+	}
+	return new(big.Int).Add(randNonzero(rng, room), d.c.R)
 }
 
 func bitName(k int, r *big.Int) string {
@@ -355,7 +367,7 @@ func (d *emuCurveDesc) genEmuCases(rng *rand.Rand, native *big.Int) []*emuCase {
 		{"n=2,P,-P,same-scalar(sum=inf)", []wpt{R1, c.neg(R1)}, []*big.Int{bi(5), bi(5)}, true},
 		{"n=3,partial-sums-cancel", []wpt{R1, R2, R1}, []*big.Int{bi(3), bi(1), rm1}, true},
 		{"n=4,pairs-equal", []wpt{R1, R2, R1, R2}, []*big.Int{bi(7), bi(9), bi(7), bi(9)}, true},
-		{"n=2,oversized", []wpt{R1, R2}, []*big.Int{new(big.Int).Add(c.R, bi(3)), new(big.Int).Add(c.R, rk())}, false},
+		{"n=2,oversized", []wpt{R1, R2}, []*big.Int{new(big.Int).Add(c.R, bi(3)), d.oversized(rng)}, false},
 	}
 	for _, complete := range []bool{false, true} {
 		for _, m := range mcs {
@@ -581,13 +593,24 @@ func (d *emuCurveDesc) inputClass(c *emuCase) (scalars []string, all string) {
 	// the unit-combination scalars; otherwise any point shows the same failure
 	var keep []string
 	for _, p := range ps {
-		unit := false
+		unit, special := false, len(scalars) > 0
 		for _, sc := range scalars {
 			if strings.HasPrefix(sc, "s≡unit") || sc == "s-generic" || sc == "s≡±small" {
 				unit = true
 			}
+			if sc != "s≡0" && sc != "s≡±1or±3" {
+				special = false
+			}
 		}
-		if p == "P=±8G" || (unit && p != "P-generic") {
+		switch {
+		case p == "P=±8G":
+			// [8]G is the dummy point that scalarMulGLVAndFakeGLV substitutes for
+			// the hinted result when s ∈ {0, ±1} under complete arithmetic: only
+			// there is the point the cause (one signature for the collision)
+			if d.glv && c.Complete && special {
+				return scalars, "dummy-point-collision(P=±8G,s∈{0,±1})"
+			}
+		case unit && p != "P-generic":
 			keep = append(keep, p)
 		}
 	}
@@ -708,6 +731,7 @@ func (j *emuJudge) judge(d *emuCurveDesc, c *emuCase, o outcome) {
 		rep["gadget_result"] = o.Got
 		sig := fmt.Sprintf("%s/%s/%s/WRONG-RESULT/%s", fam, glvKind(d), mode, icls)
 		r.Count(f+".WRONG-RESULT", 1)
+		r.Count("viol@"+c.Curve+"@"+sig, 1)
 		r.Violation(sig, fmt.Sprintf("%s on %s (%s) is satisfiable with a result different from the group law: %s", fam, c.Curve, mode, c.Class), rep)
 	default:
 		rep := c.replay()
@@ -715,6 +739,7 @@ func (j *emuJudge) judge(d *emuCurveDesc, c *emuCase, o outcome) {
 		sig := fmt.Sprintf("%s/%s/%s/unsatisfiable-in-documented-domain/%s", fam, glvKind(d), mode, icls)
 		detail := fmt.Sprintf("%s on %s (%s) rejects an input of its documented domain: %s: %s", fam, c.Curve, mode, c.Class, o.Err)
 		r.Count(f+".UNSAT-IN-DOMAIN", 1)
+		r.Count("viol@"+c.Curve+"@"+sig+"@"+c.Class, 1)
 		j.mu.Lock()
 		defer j.mu.Unlock()
 		if c.Op == "ScalarMul" || c.Op == "ScalarMulBase" {
